@@ -61,6 +61,17 @@ def run(ctx):
         cmd += ['-model', exe]
     rc, out = vf.sh(cmd, timeout=3000)
     if rc != 0:
+        # the harness validates with 8 goroutines at once (as LintFiles validates the filters of several
+        # files at once).  If it dies there but runs through with ONE worker, the validators are not
+        # safe for concurrent use: that is the failing situation
+        one = [os.path.join(vf.BIN, 'c17'), '-seed', str(ctx.seed), '-out', ctx.out, '-workers', '1',
+               '-len', '3', '-extlen', '2', '-n', '20000', '-coq', '10', '-lint', '10']
+        rc1, out1 = vf.sh(one + (['-model', exe] if exe else []), timeout=1200)
+        if rc1 == 0 and ('fatal error' in out or 'panic' in out or 'SIGSEGV' in out):
+            i = max(out.find('fatal error'), out.find('panic:'), 0)
+            vf.finish(ctx, 'proof', [{'what': 'validating patterns in 8 goroutines at once crashes the process (a run with one goroutine over the same kind of patterns does not): the validators share state, '
+                                              'so the filters of several files cannot be validated concurrently. First lines of the crash: ' + ' '.join(out[i:i + 400].split()[:40]),
+                                      'key': 'concurrent-validation:crash', 'pattern': 'any two patterns validated at the same time', 'report': out[i:i + 3000]}])
         ctx.broken.append('harness c17 failed: ' + out[-400:])
         vf.finish(ctx, 'proof', [])
     s = vf.load_json(os.path.join(ctx.out, 'summary.json'))
@@ -107,6 +118,19 @@ def replay(path):
     ok, log = vf.build_harness(ctx, ['c17'])
     if not ok:
         print(log); return 2
+    try:
+        key = json.load(open(path)).get('key', '')
+    except Exception:
+        key = ''
+    if key.startswith('concurrent-validation'):
+        # the failing situation is the interleaving: run the 8-goroutine sweep again
+        rc, out = vf.sh([os.path.join(vf.BIN, 'c17'), '-seed', '1', '-out', ctx.out, '-workers', '8', '-len', '4', '-extlen', '2', '-n', '20000', '-coq', '10', '-lint', '10'], timeout=1200)
+        if rc != 0:
+            print(out[-1500:]); print('REPLAY: property violated: validating patterns in 8 goroutines at once crashes the process'); return 1
+        s = vf.load_json(os.path.join(ctx.out, 'summary.json'))
+        if s['extra'].get('oracle_failure_counts', {}).get('concurrent-validation') or s['extra'].get('oracle_failure_counts', {}).get('panic'):
+            print('REPLAY: property violated: verdicts differ between concurrent and single validation'); return 1
+        print('REPLAY: property holds (8 goroutines, 20000 random patterns and the enumeration to length 4)'); return 0
     cmd = [os.path.join(vf.BIN, 'c17'), '-replay', path]
     exe = build_model(ctx)
     if exe:
